@@ -95,7 +95,8 @@ Definition mut_dict (m : mut) (d : zdict) : zdict :=
   | MDelFirst => tl d
   | MDelLast => removelast d
   | MClear => []
-  | MAppend x => d ++ [(1000 + x, x)]
+  (* d[1000 + x] = x: a new last entry, unless the key is already there (same value: no change) *)
+  | MAppend x => match zlookup (1000 + x) d with Some _ => d | None => d ++ [(1000 + x, x)] end
   end.
 
 Fixpoint trav_dict (checked : bool) (keys : list Z) (i : nat) (script : list mut) (d : zdict)
